@@ -176,7 +176,7 @@ func genC10(rt *rapid.T) core.Scenario {
 	if rapid.IntRange(0, 9).Draw(rt, "long") == 9 {
 		n = rapid.IntRange(30, 120).Draw(rt, "nOpsLong") // push the log past 10 and 100 entries
 	}
-	kinds := []string{"append", "append", "append", "read", "read", "stream", "save", "load"}
+	kinds := []string{"append", "append", "append", "read", "read", "stream", "save", "load", "append-other"}
 	if sc.Store.Kind != "ds" && rapid.IntRange(0, 2).Draw(rt, "deadAppends") == 2 {
 		kinds = append(kinds, "append-dead")
 	}
@@ -264,6 +264,8 @@ func (sc *C10Scenario) Execute(t *testing.T) *core.Outcome {
 		defer env.Close()
 		// a second, separately created store of the same kind must never show the first one's events
 		ctx := context.Background()
+		var otherStore eventbus.EventStore
+		nOther := 0
 		openOther := func() {
 			ocfg := sc.Store
 			ocfg.AltOpts = true
@@ -275,6 +277,7 @@ func (sc *C10Scenario) Execute(t *testing.T) *core.Outcome {
 			if _, err := other.Append(ctx, &eventbus.Event{Type: "other-store", Data: json.RawMessage(`{"x":1}`), Timestamp: time.Unix(5, 0).UTC()}); err != nil {
 				out.HarnessErr = "append other: " + err.Error()
 			}
+			otherStore, nOther = other, 1
 		}
 		var opener *simrt.Task
 		if sc.ConcOpen {
@@ -394,6 +397,13 @@ func (sc *C10Scenario) Execute(t *testing.T) *core.Outcome {
 				return
 			}
 			switch op.Kind {
+			case "append-other":
+				// the separately created store keeps being written to while this one is in use
+				nOther++
+				if _, err := otherStore.Append(ctx, &eventbus.Event{Type: "other-store", Data: json.RawMessage(fmt.Sprintf(`{"x":%d}`, nOther)), Timestamp: time.Unix(5, 0).UTC()}); err != nil {
+					out.HarnessErr = "append other: " + err.Error()
+				}
+				return
 			case "append", "append-dead":
 				m.seq++
 				ev := op.Ev.event(m.seq)
@@ -544,6 +554,16 @@ func (sc *C10Scenario) Execute(t *testing.T) *core.Outcome {
 				if e.Type == "other-store" {
 					viol("stores-not-isolated", "isolation", "an event appended to a separately created store shows up in this one")
 				}
+			}
+		}
+		// ... and the other store holds its own events, all of them, in order, whatever was written here meanwhile
+		if oevs, _, oerr := otherStore.Read(ctx, eventbus.OffsetOldest, 0); oerr == nil && kind != "ds" {
+			ok := len(oevs) == nOther
+			for i, e := range oevs {
+				ok = ok && e.Type == "other-store" && jsonEqual(e.Data, []byte(fmt.Sprintf(`{"x":%d}`, i+1)))
+			}
+			if !ok {
+				viol("stores-not-isolated", "isolation", "the separately created store, which was given %d events of its own, reads back %d events; something written to this store changed it", nOther, len(oevs))
 			}
 		}
 		if srv != nil {
